@@ -239,6 +239,18 @@ func runC16(x *Ctx) {
 	// when a coding is wanted): the response body becomes the request body
 	for _, r := range all {
 		seqReq = r.ID
+		if r.Seed%5 == 0 {
+			// before it, the same entity goes to a client that has gone away (every write fails): whatever
+			// the writer path keeps of that exchange must not show in the next one
+			gw := sim.NewSimWriter(nil)
+			gw.FaultMode, gw.FailAt = sim.WFaultFail, 0
+			ghdr := map[string]string{"Accept": "application/" + r.Codec}
+			if r.Coding != "" {
+				ghdr["Accept-Encoding"] = r.Coding
+			}
+			Serve(c, EntryServeHTTP, gw, NewReq("GET", "/e/produce", ghdr, nil, 0, r.ID))
+			x.Count("fault-wfail")
+		}
 		w := sim.NewSimWriter(nil)
 		hdr := map[string]string{"Accept": "application/" + r.Codec}
 		if r.Coding != "" {
